@@ -205,6 +205,7 @@ type sqlStmt struct {
 	joinAlias string
 	joinOn    sqlExpr
 	joinLeft  bool
+	distinct  bool
 }
 
 type sqlSet struct {
@@ -264,6 +265,9 @@ func sqlParse(src string) *sqlStmt {
 	switch {
 	case p.kw("select"):
 		st.kind = "select"
+		if p.kw("distinct") {
+			st.distinct = true
+		}
 		for {
 			st.cols = append(st.cols, p.expr())
 			if p.kw("as") {
@@ -1327,7 +1331,31 @@ func (w *Worker) sqlExec(src string, args []sqlVal) ([][]sqlVal, int, Value) {
 		}
 		var out [][]sqlVal
 		for _, r := range sel {
-			out = append(out, project(st.cols, r))
+			row := project(st.cols, r)
+			if st.distinct {
+				dup := false
+				for _, prev := range out {
+					same := true
+					for i := range row {
+						if row[i].null || prev[i].null {
+							same = same && row[i].null && prev[i].null
+							continue
+						}
+						if !w.Branch(w.sqlCmp("=", row[i], prev[i]).t) {
+							same = false
+							break
+						}
+					}
+					if same {
+						dup = true
+						break
+					}
+				}
+				if dup {
+					continue
+				}
+			}
+			out = append(out, row)
 		}
 		return out, 0, nil
 	case "insert":
